@@ -1,27 +1,32 @@
 #!/usr/bin/env python3
-"""Apply each hand-written mutant to /repo, run the property's quick check, revert. Writes mutants/RESULTS.md.
+"""Apply each hand-written mutant to a scratch worktree of /repo (default /tmp/repo-seeds, created on demand; /repo itself
+stays untouched), run the property's quick check on it (VERIF_REPO), revert. Writes mutants/RESULTS.md.
 usage: tools/mutants.py [id-prefix ...]"""
 import subprocess, sys, os, time
 sys.path.insert(0, "/verif/mutants")
 from mutants import MUTANTS
 sel = sys.argv[1:]
 rows = []
-if subprocess.run(["git", "-C", "/repo", "status", "--porcelain"], capture_output=True, text=True).stdout.strip():
-    sys.exit("/repo not clean")
+R = os.environ.get("MUT_REPO", "/tmp/repo-seeds")
+if not os.path.isdir(R):
+    subprocess.run(["git", "-C", "/repo", "worktree", "add", "--detach", R, "HEAD", "-q"], check=True)
+head = subprocess.run(["git", "-C", "/repo", "rev-parse", "HEAD"], capture_output=True, text=True).stdout.strip()
+subprocess.run(["git", "-C", R, "checkout", "-q", "--detach", head], check=True)
+subprocess.run(["git", "-C", R, "checkout", "--", "."], check=True)
 for mid, prop, path, old, new, what in MUTANTS:
     if sel and not any(mid.startswith(s) for s in sel):
         continue
-    p = os.path.join("/repo", path)
+    p = os.path.join(R, path)
     src = open(p).read()
     if src.count(old) != 1:
         rows.append((mid, prop, what, "PATTERN-DRIFT", 0)); continue
     open(p, "w").write(src.replace(old, new))
     t0 = time.time()
     try:
-        b = subprocess.run(["go", "build", "./..."], cwd="/repo", capture_output=True, text=True, env=dict(os.environ, GOFLAGS="-mod=mod", GOPROXY="off"))
+        b = subprocess.run(["go", "build", "./..."], cwd=R, capture_output=True, text=True, env=dict(os.environ, GOFLAGS="-mod=mod", GOPROXY="off"))
         if b.returncode != 0:
             rows.append((mid, prop, what, "DOES-NOT-COMPILE", 0)); continue
-        r = subprocess.run(["./check", prop, "quick"], cwd="/verif", capture_output=True, text=True)
+        r = subprocess.run(["./check", prop, "quick"], cwd="/verif", capture_output=True, text=True, env=dict(os.environ, VERIF_REPO=R))
         nviol = r.stdout.count("VIOLATION property=")
         verdict = {0: "MISSED", 1: "DETECTED", 2: "HARNESS-ERROR"}.get(r.returncode, "rc=%d" % r.returncode)
         first = ""
@@ -30,7 +35,7 @@ for mid, prop, path, old, new, what in MUTANTS:
                 first = line.strip()[:260]; break
         rows.append((mid, prop, what, verdict + (" (%d)" % nviol if nviol else ""), time.time() - t0, first))
     finally:
-        subprocess.run(["git", "-C", "/repo", "checkout", "--", "."])
+        subprocess.run(["git", "-C", R, "checkout", "--", "."])
     print(rows[-1][:5], flush=True)
 with open("/verif/mutants/RESULTS.md", "a" if sel else "w") as f:
     if not sel:
